@@ -29,7 +29,7 @@ ASSUMPTIONS = [
     "with allow_extra_values, rows with unknown items are dropped first and the remaining rules apply to what is left (the property's 'nothing else changes')",
 ]
 
-SETS = [["t"], ["r", "t"], ["t", "r", "m"], ["s", "r"], ["m", "y", "t"]]
+SETS = [["t"], ["r", "t"], ["t", "r", "m"], ["s", "r"], ["m", "y", "t"], ["N", "t"]]
 
 
 def fault_variants(ds, rows, rng):
@@ -88,6 +88,8 @@ def generate(tier, rng):
         if len(ds) >= 2:
             lays.append(dict(where="columns", wide=len(ds) - 1, header="names"))
             lays.append(dict(where="index", wide=0, header="mixed"))
+        if any(d.get("dtype") == "int" for d in ds) and len(ds) <= 2:
+            lays.append(dict(where="columns", wide=None, header="names", labels_as_str=True))      # years as text
         for desc, frows in fault_variants(ds, rows, rng):
             for li, lay in enumerate(lays):
                 for am in (False, True):
@@ -106,6 +108,13 @@ def generate(tier, rng):
                     cases.append(dict(stream="faults", dims=ds, fault=f"column of {ds[omit]['letter']} left out", rows=[[r[0], str(r[1])] for r in rows],
                                       layout=dict(where="columns", wide=None, header="names", omit_single=False, omit_dims=[omit], value_name="value"),
                                       allow_missing=am, allow_extra=ae, via="from_df"))
+                # several value columns that match no dimension: all filled, or all but one empty throughout
+                for extra in ([["low", "copy"]], [["low", "nan"]], [["aux", "nan"], ["high", "other"]], [["aux", "nan"], ["empty", "nan"]]):
+                    for via in ("from_df", "set_values_from_df"):
+                        cases.append(dict(stream="faults", dims=ds, fault=f"value columns {[e[0] for e in extra]} beside 'value' ({[e[1] for e in extra]})",
+                                          rows=[[r[0], str(r[1])] for r in rows],
+                                          layout=dict(where="columns", wide=None, header="names", omit_single=False, value_name="value", extra_value_cols=extra),
+                                          allow_missing=am, allow_extra=ae, via=via))
                 if len(ds) >= 2:
                     w = len(ds) - 1
                     cases.append(dict(stream="faults", dims=ds, fault="a value column missing in the wide table", rows=[[r[0], str(r[1])] for r in rows if r[0][w] != ds[w]["items"][0]],
@@ -170,6 +179,8 @@ def expected(case):
     lay = case["layout"]
     if any(len(ds[i]["items"]) > 1 for i in lay.get("omit_dims", [])):
         return "err", "a column is missing for a dimension with more than one item"
+    if lay.get("extra_value_cols"):
+        return "err", "several value columns that match no dimension"
     rows = [[list(r[0]), None if r[1] is None else Fraction(r[1])] for r in case["rows"]]
     w = lay.get("wide")
     if False:
